@@ -2,7 +2,32 @@
 
 BASE = ["keccak", "strobe", "strobe_rng"]
 
+STAR = BASE + ["fp", "sharks", "wire", "adss", "star"]
+TB_STROBE = ["theorems hold for EVERY permutation F plugged into the STROBE duplex; the driver instantiates F with Keccak-f[1600] (keccak/strobe streams validate the duplex model against strobe-rs 0.10)"]
+
 PROPS = {
+    "C01": {
+        "streams": STAR,
+        "technique": "Lean 4 proof for every STROBE permutation F (recv_enc inverts send_enc, recv_mac accepts send_mac, Lagrange-at-zero over ZMod p, payload framing) + byte-exact correspondence of whole reports and recoveries",
+        "level_text": "Unconditional Lean theorem C01_recover_and_decrypt: for every F, measurement, epoch, threshold t>=1, client randomness, per-client associated data and share points, from EVERY selection of reports (any order, repeats, surplus) holding t distinct share points share_recover returns (t, r0, r1) and EVERY report decrypts under derive_ske_key(r0, epoch) to a payload parsing to exactly (measurement, aux) with None / empty / longer data distinguished; C01_wire_roundtrip: every generated report survives to_bytes/from_bytes. The model is tied to the crates by the star stream: Message::generate output compared byte for byte (all ~240+ bytes) given the share point read off the implementation's output, plus recovery+decryption of wire-decoded reports.",
+        "level_note": "Hypothesis 'generate returned a report' = rejection sampling of Fp::random terminated (unbounded loop in Rust, fuel in the model). Share points are universally quantified, so their OS-RNG origin is irrelevant to the theorem; that t reports actually carry t distinct points is an OS-RNG event (measured by the oracle, probability of collision ~ n^2/2^129).",
+        "design_ref": "DESIGN.md section 6, C01",
+        "clauses": {"recovery from any selection with t distinct shares": "U (for all F)", "every report decrypts to (measurement, aux)": "U (for all F)", "wire round trip": "U", "distinctness of OS-random share points": "E (measured)"},
+        "nontrivial": "each case is one selection (subset/permutation/duplication with >= t distinct shares) recovered and all reports decrypted on the real crates",
+        "assumptions": ["Fp::random terminates", "OS RNG yields distinct share points (measured)"],
+        "trusted": TB_STROBE,
+    },
+    "C16": {
+        "streams": BASE + ["fp", "sharks", "adss"],
+        "technique": "Lean 4 proof for every STROBE permutation F (determinism of J, K, C, D and the polynomial; honest recovery; MAC-collision reduction for foreign transcripts) + byte-exact correspondence of adss::Commune::share / recover",
+        "level_text": "Lean theorems for every F, threshold, message and coins of any length: C16_deterministic (everything in a share except the evaluation point is one dealing d determined by (T, t, M, R); share never errs or panics), C16_recover (any collection from independent share() calls with t>=1 distinct points recovers exactly (t, M, R)), C16_reshare, C16_threshold_zero, and the reduction C16_transcript_separation (acceptance of shares made under a custom transcript exhibits equal MACs of two different STROBE transcripts). Tied to the crate by the adss stream (share bytes given the observed share point; recovery outcomes on honest, forged and mixed collections, thresholds 0..128, lengths up to 100k in the thorough tier).",
+        "level_note": "C16_transcript_separation is a reduction: rejection of foreign-transcript shares holds unless STROBE/Keccak produces a MAC collision between distinct transcripts (the residual cryptographic assumption); everything else is unconditional.",
+        "design_ref": "DESIGN.md section 6, C16",
+        "clauses": {"determinism": "U", "recovery": "U", "reshare": "U", "threshold 0": "U", "foreign transcript rejected": "R (MAC collision)"},
+        "nontrivial": "each case shares one (t, M, R) several times and recovers / reshares / tries a custom transcript on the real crate",
+        "assumptions": ["STROBE MAC collision resistance on distinct transcripts (only for the (R) clause)"],
+        "trusted": TB_STROBE,
+    },
     "C06": {
         "streams": ["fp", "sharks"],
         "technique": "Lean 4 proof (Horner = polynomial evaluation, Lagrange-at-zero via Mathlib over ZMod p, dealer/recover structure) + byte-exact model/implementation correspondence",
